@@ -302,7 +302,10 @@ fn classify_item(design: &Design, module: usize, item: usize) -> String {
     if uses_call {
         kinds.insert("call");
     }
-    format!("unclassified:{kind}[{}]", kinds.into_iter().collect::<Vec<_>>().join(","))
+    // (the statement kinds of the item are in the report, not in the
+    // signature: the signature names the item kind only)
+    let _ = kinds;
+    format!("unclassified:{kind}")
 }
 
 fn stim_json(stim: &Stimulus) -> serde_json::Value {
@@ -735,7 +738,7 @@ pub fn run(ctx: &Ctx) {
                 .unwrap_or_else(|_| Outcome::fail("panic:recorded", "the replay panicked", p.clone()))
         })
     });
-    let n = std::env::var("C02_CASES").ok().and_then(|s| s.parse::<usize>().ok()).unwrap_or(ctx.scale(600, 20_000));
+    let n = std::env::var("C02_CASES").ok().and_then(|s| s.parse::<usize>().ok()).unwrap_or(ctx.scale(320, 20_000));
     let mut cc_cfg = CaseCfg::cases(n).choices(8000);
     if std::env::var("VDESIGN_MINIMIZE").is_ok() {
         cc_cfg = cc_cfg.shrink_iters(0).timeout_s(3000);
